@@ -49,6 +49,9 @@ ASSUMPTIONS = [
     "sign convention is judged on real loadings only (for complex loadings xeofs' rule compares numpy's lexicographic max/min and has no statement in the property)",
     "Varimax criterion monotonicity is judged on real loadings only, with the Kaiser-normalised criterion",
     "squared covariance of a rotated cross-set mode is read from rotator.data['squared_covariance'] (no public accessor exists)",
+    "RuntimeError 'Rotation process did not converge' (default max_iter/rtol) is a documented refusal on the near_equal_var class only (DESIGN 3.4); "
+    "on the geometric class it is reported as check='raised'",
+    "modes of zero variance / zero covariance are not rotated (outside the quantifier): n_modes(base) never exceeds the numerical rank",
 ]
 TALLY_KEYS = ("family", "model", "spec", "power", "compute", "k")
 TRUSTED = ["statsmodels import shim (cross-set constructors)"]
@@ -237,6 +240,24 @@ def _non_convergence(e):
     return isinstance(e, RuntimeError) and "did not converge" in str(e)
 
 
+def _not_converged(case, rname, e, complex_loadings):
+    """DESIGN 3.4: 'Rotation process did not converge' is a documented refusal on the near_equal_var class only; anywhere else
+    it is an exception on an input the quantifier covers. Same shape as the runner's check='raised', with a narrower signature."""
+    if case["spec"] == "near_equal_var":
+        return dict(outcome="refused:RuntimeError", nontrivial=False)
+    v = viol(
+        "raised",
+        rname,
+        "RuntimeError: %s (max_iter default, rtol default; base %s shape %s k=%d power=%d)" % (e, case["model"], case["shape"], case["k"], case["power"]),
+        exc="RuntimeError",
+        at="_rotation.py:_varimax",
+        complex_loadings=bool(complex_loadings),
+        shape="%dx%d" % tuple(case["shape"]),
+        spec=case["spec"],
+    )
+    return dict(violations=[v], outcome="raised:RuntimeError", nontrivial=False)
+
+
 # ----------------------------------------------------------------------------- one case
 
 
@@ -274,8 +295,8 @@ def _run_single(case, seed):
         if not case["compute"]:
             rot.compute()
     except RuntimeError as e:
-        if _non_convergence(e) and case["spec"] == "near_equal_var":
-            return dict(outcome="refused:RuntimeError", nontrivial=False)
+        if _non_convergence(e):
+            return _not_converged(case, rname, e, np.iscomplexobj(base.data["components"].values))
         raise
 
     feats = dict(power1=(power == 1), compute=case["compute"])
@@ -380,8 +401,8 @@ def _run_cross(case, seed):
         if not case["compute"]:
             rot.compute()
     except RuntimeError as e:
-        if _non_convergence(e) and case["spec"] == "near_equal_var":
-            return dict(outcome="refused:RuntimeError", nontrivial=False)
+        if _non_convergence(e):
+            return _not_converged(case, rname, e, np.iscomplexobj(base.data["components1"].values))
         raise
 
     a = case["alpha"] if case["alpha"] is not None else [1.0, 1.0]
